@@ -465,6 +465,10 @@ func scenarioPortfolio(password bool) [][]string {
 		{respCmd("STRLEN", "k"), respCmd("HLEN", "h"), respCmd("HKEYS", "h"), respCmd("QUIT")},
 		{respCmd("ZADD", "z", "NX", "1", "m"), respCmd("PING")},
 		{respCmd("SET", "k", "v", "EX", "10", "NX"), respCmd("INCR", "k"), respCmd("GETRANGE", "k", "0", "3")},
+		{respCmd("GETRANGE", "k", "-9", "-10"), respCmd("GETRANGE", "k", "-4", "-5"), respCmd("GETRANGE", "k", "0", "3"), respCmd("GETRANGE", "k", "3", "3"), respCmd("SUBSTR", "k", "2", "1"), respCmd("GETRANGE", "k", "-1", "-3"), respCmd("GETRANGE", "k", "-3", "-1")},
+		{respCmd("LPOP", "k", "abc"), respCmd("RPOP", "k", "1.5"), respCmd("LPOP", "k", "99999999999999999999"), respCmd("LINDEX", "k", "x"), respCmd("PING")},
+		{respCmd("ZREVRANGEBYSCORE", "z", "(3", "1"), respCmd("ZREVRANGEBYSCORE", "z", "3", "(1"), respCmd("ZRANGEBYSCORE", "z", "(1", "3"), respCmd("ZRANGE", "z", "(1", "3", "BYSCORE")},
+		{respCmd("DECRBY", "k", "-9223372036854775808"), respCmd("INCRBY", "k", "1"), respCmd("DECR", "k"), respCmd("APPEND", "k", "x"), respCmd("MGET", "a", "b", "c", "d")},
 		{respCmd("foo\rX+OK\rX"), respCmd("PING")},
 		{respCmd("x\r\n+OK"), respCmd("x\ny"), respCmd("CONFIG", "a\rb")},
 	}
